@@ -31,8 +31,9 @@ import (
 // constituent errors (and flattened, in the case of wrapped errors),
 // are an *erc.Stack object, which can be introspected as needed.
 type Collector struct {
-	mu    sync.Mutex
-	stack ers.Stack
+	mu       sync.Mutex
+	stack    ers.Stack
+	resolved *ers.Stack
 }
 
 // New constructs an empty Collector. Collectors can be used without
@@ -49,6 +50,7 @@ func (ec *Collector) Add(err error) {
 	}
 	defer with(lock(&ec.mu))
 	ec.stack.Push(err)
+	ec.resolved = nil
 }
 
 // Obesrver returns the collector's Add method as a
@@ -89,7 +91,16 @@ func (ec *Collector) Resolve() error {
 		return nil
 	}
 
-	return &ec.stack
+	// Push rewrites the head of the stack in place (the elements
+	// behind it are immutable): hand out a copy of the head, made
+	// under the lock, so that the returned error can be used while
+	// other goroutines continue to Add. The copy is reused until
+	// the next Add.
+	if ec.resolved == nil {
+		out := ec.stack
+		ec.resolved = &out
+	}
+	return ec.resolved
 }
 
 // HasErrors returns true if there are any underlying errors, and
